@@ -541,7 +541,8 @@ Inductive run_result :=
 | Yield                    (* budget exhausted: Ok(None) *)
 | Failed (e : N) (msg : text).
 
-(* run_count, run.rs:25-56, without the collector (see Gc.v; a collection is not
+(* run_count, run.rs:25-64 (budget tested after executing; registers reset on the
+   error path), without the collector (see Gc.v; a collection is not
    observable: C03).  [count = None] is usize::MAX.  [fuel] bounds the number of
    instructions the MODEL executes; NoFuel stands for a program that does not halt
    within it. *)
@@ -550,7 +551,6 @@ Fixpoint run_loop (fuel : nat) (cycles : N) (count : option N) (s : vm) : res ru
   | O => RNoFuel
   | S f =>
       let cycles := cycles + 1 in
-      if match count with Some c => cycles =? c | None => false end then ROk Yield s else
       match run_one s with
       | ROk true s' =>
           match to_cell (acc s') s' with
@@ -559,10 +559,15 @@ Fixpoint run_loop (fuel : nat) (cycles : N) (count : option N) (s : vm) : res ru
           | RPanic k => RPanic k
           | RNoFuel => RNoFuel
           end
-      | ROk false s' => run_loop f cycles count s'
+      | ROk false s' =>
+          if match count with Some c => cycles =? c | None => false end then ROk Yield s'
+          else run_loop f cycles count s'
       | RErr e msg s' =>
           match stack_trace s' with
-          | Ok t => ROk (Failed e msg) (with_trace s' (Some t))
+          | Ok t =>
+              (* stack.clear(); sp = 0; bp = 0; ep = usize::MAX; acc = Undefined *)
+              let s1 := with_stack s' (repeat VUndef (length (stack s'))) 0 in
+              ROk (Failed e msg) (with_trace (with_acc (with_ep (with_bp s1 0) USIZE_MAX) VUndef) (Some t))
           | Err _ => RPanic 51
           | Panic k => RPanic k
           | NoFuel => RNoFuel
